@@ -141,14 +141,12 @@ def sym_int(x=0, base=None):
         raise Unsupported("int() base %r" % (base,))
     ctx = Ctx.cur
     cs = list(x.cs)
-    # CPython quirk (PyLong_FromUnicodeObject): an all-ASCII string is parsed as is, so only the C
-    # isspace set is stripped; a string with any non-ASCII character is first transformed, which
-    # maps every Unicode white-space character (incl. U+001C-001F) to a blank
-    uni = not ctx.decide_b(zand([ch_in(c, _ASCII) for c in cs]))
-    sp = (lambda c: _is_space_cond(c)) if uni else (lambda c: ch_in(c, _C_SPACE))
-    while cs and ctx.decide_b(sp(cs[0])):
+    # CPython (_PyUnicode_TransformDecimalAndSpaceToASCII + PyLong_FromString): characters below
+    # 127 are taken as they are, so only the C isspace set is stripped among them (U+001C-001F are
+    # NOT), while every non-ASCII Unicode white-space character is turned into a blank first
+    while cs and ctx.decide_b(ch_in(cs[0], _num_space())):
         cs.pop(0)
-    while cs and ctx.decide_b(sp(cs[-1])):
+    while cs and ctx.decide_b(ch_in(cs[-1], _num_space())):
         cs.pop()
     neg = False
     if cs and ctx.decide_b(zor([ch_eq(cs[0], "+"), ch_eq(cs[0], "-")])):
@@ -181,11 +179,17 @@ def sym_int(x=0, base=None):
     return mkint(-val if neg else val)
 
 
-_FLOAT_BODY = r"[+-]?((\d(_?\d)*\.?(\d(_?\d)*)?|\.\d(_?\d)*)(e[+-]?\d(_?\d)*)?|inf|infinity|nan)"
-_FLOAT_RE_UNI = r"\s*" + _FLOAT_BODY + r"\s*"
-_FLOAT_RE_ASCII = r"[ \t\n\r\v\f]*" + _FLOAT_BODY + r"[ \t\n\r\v\f]*"
-_ASCII = ((0, 127),)
-_C_SPACE = ((9, 13), (32, 32))
+_FLOAT_BODY = (r"[+-]?((\d(_?\d)*\.?(\d(_?\d)*)?|\.\d(_?\d)*)([eE][+-]?\d(_?\d)*)?|[iI][nN][fF]|"
+               r"[iI][nN][fF][iI][nN][iI][tT][yY]|[nN][aA][nN])")
+_NUM_WS = "".join(chr(c) for c in range(0x3001) if (c < 127 and chr(c) in " \t\n\r\v\f") or (c >= 127 and chr(c).isspace()))
+_FLOAT_RE = "[" + _NUM_WS + "]*" + _FLOAT_BODY + "[" + _NUM_WS + "]*"
+
+
+def _num_space():
+    from .core import ranges_from_pred
+    return ranges_from_pred("numspace", lambda ch: ch in _NUM_WS, Ctx.cur.alphabet)
+
+
 
 
 def sym_float(x=0.0):
@@ -197,8 +201,7 @@ def sym_float(x=0.0):
         return builtins.float(x)
     if x.is_concrete():
         return builtins.float(x.concrete())
-    uni = not Ctx.cur.decide_b(zand([ch_in(c, _ASCII) for c in x.cs]))
-    pat = rx.sym_compile(_FLOAT_RE_UNI if uni else _FLOAT_RE_ASCII, _re.IGNORECASE)
+    pat = rx.sym_compile(_FLOAT_RE)
     if pat.fullmatch(x) is None:
         raise ValueError("could not convert string to float [symbolic]")
     return SymFloat(SymStr(x.cs))
@@ -224,8 +227,6 @@ def int_digits(v, width=0):
     for k in range(nd - 1, -1, -1):
         d = (a / (10 ** k)) % 10 if k else a % 10
         out.append(SymChar(d + 48, dom))
-    if len(out) < width:
-        out = ["0"] * (width - len(out)) + out
     if neg:
         out = ["-"] + out
     return out
@@ -1041,33 +1042,67 @@ def sym_strptime(s, fmt):
         _fmt_cache[fmt] = rx.sym_compile(_TRE.pattern(fmt), _re.IGNORECASE)
     pat = _fmt_cache[fmt]
     ctx = Ctx.cur
-    m = pat.match(s)
-    if m is None:
+    n = len(s.cs)
+    mt = pat._mt(s)
+    ends = mt.ends(pat.nodes, 0)
+    if not ctx.decide_b(zor(list(ends.values()))):
         raise ValueError("time data does not match format [symbolic]")
-    if m.end() != len(s.cs):
+    # re.match semantics: the FIRST alternative in backtracking priority that matches at all is the
+    # match; "unconverted data remains" if it does not end at the end of the string.  Instead of
+    # forking on which alternative that is, the fields are merged into if-then-else terms.
+    alts = mt.altlist(pat.nodes, 0)
+    names = pat.names
+    full = False
+    merged = {}
+    for e, cond, g in reversed(alts):
+        if cond is False:
+            continue
+        if e != n:
+            full = False if cond is True else zand([znot(cond), full])
+            if cond is True:
+                merged = {}
+            continue
+        vals = {}
+        for d in ("Y", "m", "d", "H", "M", "S", "f", "j"):
+            if d in names and names[d] in g:
+                a, b = g[names[d]]
+                digits = s.cs[a:b]
+                if d == "f":
+                    digits = tuple(digits) + tuple("0" * (6 - len(digits)))
+                v = 0
+                for c in digits:
+                    ok, dv = _digit_value(c, 10)
+                    v = v * 10 + dv
+                vals[d] = v
+        if cond is True:
+            full, merged = True, vals
+        else:
+            full = zor([cond, full]) if full is not False else cond
+            merged = {d: (z3.If(cond, _zi(v), _zi(merged[d])) if d in merged else v) for d, v in vals.items()}
+    if not ctx.decide_b(full):
         raise ValueError("unconverted data remains [symbolic]")
-    gd = m.groupdict()
+    gd = merged
     year, month, day, hour, minute, second, us = 1900, 1, 1, 0, 0, 0, 0
+    mk = lambda v: v if _isinstance(v, builtins.int) else mkint(v)
     if "Y" in gd:
-        year = sym_int(gd["Y"])
+        year = mk(gd["Y"])
     if "m" in gd:
-        month = sym_int(gd["m"])
+        month = mk(gd["m"])
     if "d" in gd:
-        day = sym_int(gd["d"])
+        day = mk(gd["d"])
     if "H" in gd:
-        hour = sym_int(gd["H"])
+        hour = mk(gd["H"])
     if "M" in gd:
-        minute = sym_int(gd["M"])
+        minute = mk(gd["M"])
     if "S" in gd:
-        second = sym_int(gd["S"])
+        second = mk(gd["S"])
     if "f" in gd:
-        f = SymStr.of(gd["f"])
-        us = sym_int(SymStr.mk(f.cs + tuple("0" * (6 - len(f.cs)))))
+        us = mk(gd["f"])
     yz = _zi(year)
     if not ctx.decide_b(B(mkbool(z3.And(yz >= 1, yz <= 9999)))):
         raise ValueError("year out of range [symbolic]")
     if "j" in gd:
-        jul = _zi(sym_int(gd["j"]))
+        jul = _zi(mk(gd["j"]))
         leap = _leap(yz)
         # fromordinal(julian - 1 + ordinal(year, 1, 1)): day 366 of a common year rolls into the next year
         if ctx.decide_b(B(mkbool(z3.And(jul == 366, z3.Not(leap))))):
